@@ -392,14 +392,14 @@ def run(ck):
     exhaustive_subset(ck)
     random_subset(ck, rng, 4000 if not thorough else 150000)
     network_roundtrip(ck, rng, 3000 if not thorough else 100000)
-    for i in range(400 if not thorough else 12000):
+    for i in range(400 if not thorough else 60000):
         if ck.mine(i):
             responder_case(ck, ck.rng('resp', i), i)
-    for rep in range(1 if not thorough else 8):
+    for rep in range(1 if not thorough else 40):
         for vi in range(60):
             if ck.mine(vi + rep):
                 initiator_case(ck, ck.rng('init', vi, rep), vi)
-    for i in range(40 if not thorough else 600):
+    for i in range(40 if not thorough else 4000):
         if ck.mine(i):
             rekey_case(ck, ck.rng('rekey', i), i)
 
